@@ -52,6 +52,7 @@ func checkC07(c *Ctx) {
 	c.Rule("C07.1", "channel-voice constructors: for all arguments the result has the prescribed length, byte 0 = kind<<4 | min(channel,15), every data byte = min(arg,127) (pitch bend: U = clamp(value,-8192,8191)+8192, data1 = U bits 0-6, data2 = U bits 7-13); no panic, no out-of-range index", 8)
 	c.Rule("C07.2", "system-common constructors: SPP = F2, bits 0-6, bits 7-13 of the argument (LSB first); MTC / SongSelect: one data byte within 0..127 for every argument; Tune = F6", 4)
 	c.Rule("C07.3", "accessor(constructor(args)) = clamped args for all args: the matching accessor returns true on every path and its out-parameters equal the clamped arguments", 8)
+	c.Rule("C07.5", "loopback: a message sent through the loopback port arrives with the same value — live decoder equals the receiver model in every (state, input class) cell, the listener stage is the identity on every decoder output shape, the loopback Send forwards bytes and time unchanged", 40)
 	c.Rule("C07.4", "acceptance table: every other type-specific accessor rejects the constructor's result (derived views GetNoteStart/GetNoteEnd/GetChannel exempt)", 8)
 
 	mp := p.Pkg("")
@@ -343,6 +344,10 @@ func checkC07(c *Ctx) {
 		}
 	}
 	c.Extra["trace_partitions"] = totalPaths
+	// C07.5 loopback: decoder = receiver model, listener stage = identity, loopback Send = pipe
+	liveSimulation(c, "C07.5", "", "", true)
+	retypingRule(c, "C07.5", "")
+	loopbackRule(c, "C07.5")
 }
 
 // st0conv converts the expected value to the width/sign of the observed cell.
